@@ -206,6 +206,17 @@ func c16(p *P) {
 					p.guarded("C16.R4", poll, []Sink{{fs.Store, "advance " + f.field}}, errFails("certificate validates", "certs.ValidateFinalityCertificates", ""))
 				}
 			}
+			// the power table advances whenever the next instance does
+			nis, pts := fieldStores(poll, false, "Poller", "NextInstance"), fieldStores(poll, false, "Poller", "PowerTable")
+			for _, ni := range nis {
+				together := false
+				for _, pt := range pts {
+					if pt.Store.Block() == ni.Store.Block() || dominates(pt.Store, ni.Store) {
+						together = true
+					}
+				}
+				r.Check(together, "C16.R4", "polling.Poller.Poll: power table advances together with the next instance", p.c.InstrPos(ni.Store), "PowerTable store in the same block / dominating", "NextInstance can advance on a path where PowerTable is not updated — later certificates would be validated against a stale table")
+			}
 			// illegal classification on failure
 			inj := errFails("fail", "certs.ValidateFinalityCertificates", "").Match(poll)
 			s := RunSCCP(poll, inj)
